@@ -216,16 +216,11 @@ class DecomposeMonitor(taps.Monitor):
 
 
 def setup(ctx):
-    B = taps.mod("menpo.transform.base")
-    C = taps.mod("menpo.transform.base.composable")
-    A = taps.mod("menpo.transform.homogeneous.affine")
-    for owner in (B.Transform, C.ComposableTransform):
-        taps.tap(ctx, owner, "compose_before", ComposeMonitor("before"))
-        taps.tap(ctx, owner, "compose_after", ComposeMonitor("after"))
-    taps.tap(ctx, C.ComposableTransform, "compose_before_inplace", InplaceMonitor("before"))
-    taps.tap(ctx, C.ComposableTransform, "compose_after_inplace", InplaceMonitor("after"))
-    taps.tap(ctx, A.Affine, "decompose", DecomposeMonitor())
-    taps.tap(ctx, A.DiscreteAffine, "decompose", DecomposeMonitor())
+    for direction in ("before", "after"):
+        taps.tap_definers(ctx, "compose_" + direction, lambda c, d=direction: ComposeMonitor(d))
+        taps.tap_definers(ctx, "compose_%s_inplace" % direction, lambda c, d=direction: InplaceMonitor(d))
+    owners = taps.tap_definers(ctx, "decompose", lambda c: DecomposeMonitor())
+    ctx.see("tapped_decompose_definers", sorted(c.__name__ for c in owners))
 
 
 def is_identity(t, d):
@@ -278,6 +273,26 @@ def w_pairs(ctx, rng, i):
 
 
 IDENT = ["identity:" + c for c in ("Homogeneous", "Affine", "Similarity", "Rotation", "Translation", "UniformScale", "NonUniformScale")]
+
+
+def w_hostile_reps(ctx, rng, i):
+    """Operands held in unusual but legal representations: integer-dtype matrices, improper rotations."""
+    d = 2 + i % 2
+    K = tx.HOMOG + tx.EXTRA_HOMOG
+    ka = tx.EXTRA_HOMOG[(i // 2) % len(tx.EXTRA_HOMOG)]
+    kb = K[(i // (2 * len(tx.EXTRA_HOMOG))) % len(K)]
+    a, _ = tx.make(rng, ka, d)
+    b, _ = tx.make(rng, kb, d)
+    for first, second in ((a, b), (b, a)):
+        first.compose_before(second)
+        first.compose_after(second)
+        for direction in ("before", "after"):
+            c = first.copy()
+            try:
+                getattr(c, "compose_%s_inplace" % direction)(second)
+            except ValueError:
+                pass
+    ctx.count_case(("hostile", ka, kb, d), nontrivial=True)
 
 
 def w_identities(ctx, rng, i):
@@ -362,5 +377,6 @@ def w_programs(ctx, rng, i):
 WORKLOADS = [
     Workload("pairs", w_pairs, quick=2 * (17 * 17 + 14 * 14) * 4, thorough=2 * 17 * 17 * 4 * 40),
     Workload("programs", w_programs, quick=1500, thorough=80000),
+    Workload("hostile_representations", w_hostile_reps, quick=2 * 4 * 16, thorough=2 * 4 * 16 * 20),
     Workload("identities", w_identities, quick=2 * 7 * 17, thorough=2 * 7 * 17 * 10),
 ]
